@@ -68,7 +68,7 @@ def InvCX (σ : State) : Prop :=
     ∃ j, j < σ.next ∧ (σ.inc j).shard = (σ.inc t).shard ∧ (σ.inc j).rpc = .termRm
 
 set_option maxHeartbeats 4000000 in
-theorem invPast_step {c σ a σ'} (h : step c σ a = some σ') (B : InvBound σ) (I : InvPast σ) : InvPast σ' := by
+theorem invPast_step_s {c σ a σ'} (ha : a.grp = .s) (h : step c σ a = some σ') (B : InvBound σ) (I : InvPast σ) : InvPast σ' := by
   obtain ⟨P1, P2, P3⟩ := I
   cases a with
   | «open» sh srv =>
@@ -89,6 +89,19 @@ theorem invPast_step {c σ a σ'} (h : step c σ a = some σ') (B : InvBound σ)
       by_cases e1 : σ.next = t
       · simp [e1] at ht
       · simp [e1] at ht ⊢; exact P3 t ht
+  | _ =>
+    first
+    | (exact Grp.noConfusion ha)
+    | (step_inv h
+       all_goals refine ⟨?_, ?_, ?_⟩
+       all_goals (try (intro c' t ht; (try simp [aget_adel] at ht ⊢); first | exact P1 c' t ht | (have hP := P1 c' t; revert ht; crush); done))
+       all_goals (try (intro t ht; (try simp at ht ⊢); first | exact P3 t ht | (have hP := P3 t; revert ht; crush); done))
+       all_goals (try (intro k' g hk'; (try simp at hk' ⊢); first | exact P2 k' g hk' | (have hP := P2 k' g; revert hk'; crush); done)))
+
+set_option maxHeartbeats 4000000 in
+theorem invPast_step_r {c σ a σ'} (ha : a.grp = .r) (h : step c σ a = some σ') (B : InvBound σ) (I : InvPast σ) : InvPast σ' := by
+  obtain ⟨P1, P2, P3⟩ := I
+  cases a with
   | rGet k =>
     step_inv h
     all_goals refine ⟨?_, ?_, ?_⟩
@@ -126,11 +139,32 @@ theorem invPast_step {c σ a σ'} (h : step c σ a = some σ') (B : InvBound σ)
     · intro k' g hk'; simp at hk' ⊢; have hP := P2 k' g; revert hk'; crush
     · intro t ht; simp at ht ⊢; have hP := P3 t; revert ht; crush
   | _ =>
-    step_inv h
-    all_goals refine ⟨?_, ?_, ?_⟩
-    all_goals (try (intro c' t ht; (try simp [aget_adel] at ht ⊢); first | exact P1 c' t ht | (have hP := P1 c' t; revert ht; crush); done))
-    all_goals (try (intro t ht; (try simp at ht ⊢); first | exact P3 t ht | (have hP := P3 t; revert ht; crush); done))
-    all_goals (try (intro k' g hk'; (try simp at hk' ⊢); first | exact P2 k' g hk' | (have hP := P2 k' g; revert hk'; crush); done))
+    first
+    | (exact Grp.noConfusion ha)
+    | (step_inv h
+       all_goals refine ⟨?_, ?_, ?_⟩
+       all_goals (try (intro c' t ht; (try simp [aget_adel] at ht ⊢); first | exact P1 c' t ht | (have hP := P1 c' t; revert ht; crush); done))
+       all_goals (try (intro t ht; (try simp at ht ⊢); first | exact P3 t ht | (have hP := P3 t; revert ht; crush); done))
+       all_goals (try (intro k' g hk'; (try simp at hk' ⊢); first | exact P2 k' g hk' | (have hP := P2 k' g; revert hk'; crush); done)))
+
+set_option maxHeartbeats 4000000 in
+theorem invPast_step_e {c σ a σ'} (ha : a.grp = .e) (h : step c σ a = some σ') (B : InvBound σ) (I : InvPast σ) : InvPast σ' := by
+  obtain ⟨P1, P2, P3⟩ := I
+  cases a with
+  | _ =>
+    first
+    | (exact Grp.noConfusion ha)
+    | (step_inv h
+       all_goals refine ⟨?_, ?_, ?_⟩
+       all_goals (try (intro c' t ht; (try simp [aget_adel] at ht ⊢); first | exact P1 c' t ht | (have hP := P1 c' t; revert ht; crush); done))
+       all_goals (try (intro t ht; (try simp at ht ⊢); first | exact P3 t ht | (have hP := P3 t; revert ht; crush); done))
+       all_goals (try (intro k' g hk'; (try simp at hk' ⊢); first | exact P2 k' g hk' | (have hP := P2 k' g; revert hk'; crush); done)))
+
+theorem invPast_step {c σ a σ'} (h : step c σ a = some σ') (B : InvBound σ) (I : InvPast σ) : InvPast σ' := by
+  cases ha : a.grp
+  · exact invPast_step_s ha h B I
+  · exact invPast_step_r ha h B I
+  · exact invPast_step_e ha h B I
 
 theorem cx_of_eq {σ σ' : State} (I : InvCX σ) (hn : σ'.next = σ.next) (hi : ∀ j, σ'.inc j = σ.inc j)
     (hc : σ'.cancels = σ.cancels) : InvCX σ' := by
